@@ -236,3 +236,12 @@ PLANS['C16'] = {'quick': [EXTRACT_Q], 'thorough': [EXTRACT_T]}
 SHORTCIRCUIT_Q = dict(scenario='block_expr', args=dict(policy=expr_profile([['Bin', 'Cond', 'Assign'], ['Bin', 'Call', 'Ident'], ['Ident', 'Call'], ['Ident']], max_args=(1, 1, 0, 0), bin_ops=['LogicalOr', 'NullishCoalescing', 'Add'], assign_ops=['AddAssign', 'OrAssign'], props=['substring', 'foo'], names=['a'], op_budget=4), concrete_enums=('BinaryOp', 'AssignOp')),
                       label='short-circuit contexts (||, ??, ?:, ||=) with concrete operators around instrumented operations with effectful operands, depth 3, <= 4 non-leaf nodes')
 PLANS['C01'] = {'quick': [ALL_D2, OPERANDS_Q, SHORTCIRCUIT_Q, PROTO_Q], 'thorough': [ALL_D2, OPERANDS_Q, CONTEXTS_Q, SHORTCIRCUIT_Q, PROTO_T, OPERANDS_T]}
+
+
+# optional chains
+OPTCHAIN_Q = dict(scenario='block_expr', args=dict(policy=expr_profile([['OptChain'], ['OptChain', 'Ident', 'Call'], ['OptChain', 'Ident'], ['Ident']], max_args=(0, 1, 0, 0), props=['substring', 'foo'], names=['a'], op_budget=4),
+                                                   config=[dict(src='plusOperator', dst=None, operator=True, awc=False), dict(src='substring', dst='stringSubstring', operator=False, awc=False)]),
+                  label='optional chains of up to 3 links (member / call links, `optional` flags symbolic), method names in {substring (configured), foo}, <= 4 non-leaf nodes')
+for p in ('C01', 'C02', 'C03', 'C06', 'C12', 'C13', 'C15'):
+    PLANS[p]['quick'] = PLANS[p]['quick'] + [OPTCHAIN_Q]
+    PLANS[p]['thorough'] = PLANS[p]['thorough'] + [OPTCHAIN_Q]
